@@ -779,6 +779,11 @@ def run_c11(ctx):
         step_mode = ["single", "run1", ("run", 2), ("run", 3)][tape.weighted([3, 3, 1, 1], "step_mode")]
         interleave = tape.chance(0.3, "interleave_resumed_and_fresh")
         hold_exception = tape.chance(0.4, "hold_exception")
+        warnings_are_errors = tape.chance(0.25, "warnings_are_errors")
+    if warnings_are_errors:
+        ctx.count("fault:warnings_are_errors")
+    with tape.span("plan2"):
+        pass
         exc_cls = FAULT_CLASSES[tape.draw(len(FAULT_CLASSES), "exc")]
         n_after = 1 + tape.draw(3, "n_after")
         second_fault = tape.chance(0.3, "second_fault")
@@ -839,7 +844,14 @@ def run_c11(ctx):
                 A.table.new_step()
                 A.table.arm(k, exc)
                 A.boundary = (pre, pre_phase)
-                evs, out = do_step(A, step_mode)
+                if warnings_are_errors:
+                    # process configuration: -W error (as test runners set it): anything that warns on the way
+                    # out raises instead
+                    with warnings.catch_warnings():
+                        warnings.simplefilter("error")
+                        evs, out = do_step(A, step_mode)
+                else:
+                    evs, out = do_step(A, step_mode)
                 step_pre, step_phase = A.boundary       # state at the start of the step that faulted
                 label = "%s: fault %s at user call %d of the step in phase %r after %d steps" % (
                     kind, exc_cls.__name__, k, pre_phase, pre_steps)
